@@ -1,6 +1,7 @@
 import SJ.Proofs.Machine
 import SJ.Proofs.EarliestMain
 import SJ.Proofs.EarliestDead
+import SJ.Proofs.LineCol
 /-!
 # C11 — syntax errors point at the first offending byte
 
@@ -349,5 +350,131 @@ example : (parseTop envS (0x31 :: List.replicate 309 0x30 ++ [0x65, 0x2b, 0x78])
   decide +kernel
 example : (parseTop envS (0x31 :: List.replicate 309 0x30 ++ [0x65, 0x2b, 0x30])).isErr .NumberOutOfRange 313 = true := by
   decide +kernel
+
+/-! ## line and column as the crate computes them (`Model/LineCol.lean`)
+
+The theorems above speak about `lineCol bs idx`, the specification of what an index means as (line, column). The
+crate has no such function; it has `LineColIterator` (three counters updated per byte, read off by
+`IoRead::position`) and `SliceRead::position_of_index` (`memrchr` + `memchr_iter().count()`). Both are modelled in
+`SJ.Model.LineCol` and proved equal to `lineCol` here, so that every "reported at index `idx`" of the parser models
+is a statement about the `Position` the crate puts into `Error::syntax(code, line, column)`.
+
+Conventions (the same for `lineCol`, the iterator and `position_of_index`): positions describe the state AFTER `k`
+bytes; `(1, 0)` before any byte; the `n`-th byte of a line is column `n`; the column just after a newline is 0, so an
+index that counts a newline as its last byte is reported on the next line, column 0; `\r` counts as a column. -/
+
+open SJ.Model.LineCol in
+/-- **C11 (`LineColIterator`).** After the wrapped iterator has handed out the first `k` bytes of `bs`, the counters
+    satisfy `(line(), col()) = lineCol bs k` and `byte_offset() = k` (with `start_of_line` = `k` minus the column). -/
+theorem c11_iter_linecol (bs : Bytes) (k : Nat) (hk : k ≤ bs.length) :
+    ((LCIter.new.feed (bs.take k)).line, (LCIter.new.feed (bs.take k)).col) = lineCol bs k ∧
+    (LCIter.new.feed (bs.take k)).byteOffset = k ∧
+    (LCIter.new.feed (bs.take k)).startOfLine = k - (lineCol bs k).2 :=
+  ⟨(SJ.Proofs.LineCol.feed_lineCol bs k hk).1, (SJ.Proofs.LineCol.feed_lineCol bs k hk).2,
+   SJ.Proofs.LineCol.feed_startOfLine bs k hk⟩
+
+open SJ.Model.LineCol in
+/-- **C11 (`IoRead`).** After ANY sequence of `next()` / `peek()` / `discard()` calls on a reader over `bs`:
+    `byte_offset()` — the number of bytes consumed — is within the input, `peek_position()` is `position()`, and
+
+    * with an empty peek slot `position() = lineCol bs byte_offset()`;
+    * with a byte `b` in the peek slot — it is `bs[byte_offset()]` — the iterator has already counted it:
+      `position() = lineCol bs (byte_offset() + 1)`, i.e. one column further, or the next line's column 0 when `b` is a
+      newline (`c11_linecol_succ`). This is why `de.rs`'s `error()` (= `position()`) after a mere `peek()` points one
+      byte further for a reader than for a slice, and `peek_error()` does not. -/
+theorem c11_reader_linecol (bs : Bytes) (ops : List Op) :
+    let r := (IoPos.new bs).run ops
+    r.byteOffset ≤ bs.length ∧ r.peekPosition = r.position ∧
+    ((r.ch = none ∧ r.position = lineCol bs r.byteOffset) ∨
+     (∃ b, r.ch = some b ∧ bs[r.byteOffset]? = some b ∧ r.position = lineCol bs (r.byteOffset + 1))) := by
+  intro r
+  obtain ⟨p, hi⟩ := SJ.Proofs.LineCol.inv_run bs ops
+  have hbo := hi.byteOffset
+  have hle := hi.le
+  refine ⟨?_, rfl, ?_⟩
+  · show r.byteOffset ≤ _
+    rw [hbo]; split <;> omega
+  · rcases hi.ch with h0 | ⟨k, hk, hch⟩
+    · left
+      refine ⟨h0, ?_⟩
+      show r.position = lineCol bs r.byteOffset
+      rw [hbo, h0, hi.position]; rfl
+    · right
+      have hlt : k < bs.length := by omega
+      have hsome : r.ch = some bs[k] := by rw [hch, List.getElem?_eq_getElem hlt]
+      have hb : r.byteOffset = k := by
+        show r.byteOffset = k
+        rw [hbo, hsome]; simp; omega
+      refine ⟨bs[k], hsome, ?_, ?_⟩
+      · show bs[r.byteOffset]? = _
+        rw [hb, List.getElem?_eq_getElem hlt]
+      · show r.position = lineCol bs (r.byteOffset + 1)
+        rw [hb, hi.position, hk]
+
+/-- **C11 (one more byte).** The position after `k + 1` bytes from the position after `k`: byte `k` a newline → next
+    line, column 0; any other byte (`\r`, a UTF-8 continuation byte, …) → same line, one more column. Columns count BYTES. -/
+theorem c11_linecol_succ (bs : Bytes) (k : Nat) (h : k < bs.length) :
+    lineCol bs (k + 1) =
+      if bs[k] = 0x0a then ((lineCol bs k).1 + 1, 0) else ((lineCol bs k).1, (lineCol bs k).2 + 1) := by
+  by_cases hb : bs[k] = 0x0a
+  · rw [if_pos hb]; exact SJ.Proofs.LineCol.lineCol_succ_newline bs k h hb
+  · rw [if_neg hb]; exact SJ.Proofs.LineCol.lineCol_succ_other bs k h hb
+
+open SJ.Model.LineCol in
+/-- **C11 (`SliceRead::position_of_index`).** For every index within the slice the recomputation by `memrchr` /
+    `memchr_iter().count()` (naive scans with memchr's documented contract, `c11_memchr_contract`) is `lineCol`, and the
+    `start_of_line` it finds is the one the iterator maintains; beyond the slice `&self.slice[..i]` panics. -/
+theorem c11_slice_linecol (bs : Bytes) (i : Nat) :
+    (i ≤ bs.length → sliceLineCol bs i = lineCol bs i ∧ positionOfIndex bs i = some (lineCol bs i) ∧
+      SJ.Proofs.LineCol.startOf (bs.take i) = (LCIter.new.feed (bs.take i)).startOfLine) ∧
+    (bs.length < i → positionOfIndex bs i = none) :=
+  ⟨fun h => ⟨SJ.Proofs.LineCol.sliceLineCol_eq bs i h, SJ.Proofs.LineCol.positionOfIndex_eq bs i h,
+    SJ.Proofs.LineCol.startOf_eq_iter bs i h⟩, SJ.Proofs.LineCol.positionOfIndex_panics bs i⟩
+
+open SJ.Model.LineCol in
+/-- **C11 (`SliceRead::position` / `peek_position`).** With `index ≤ len` (an invariant of `SliceRead`) neither call
+    panics; `position()` is `lineCol` at `index`, `peek_position()` at `min(len, index + 1)`. The cap is needed exactly
+    when `index = len` — after `next()` returned the last byte, or at end of input, where every `peek_error(Eof…)` is
+    raised: uncapped, `position_of_index(len + 1)` would panic. -/
+theorem c11_slice_positions (bs : Bytes) (index : Nat) (h : index ≤ bs.length) :
+    SlicePos.position ⟨bs, index⟩ = some (lineCol bs index) ∧
+    SlicePos.peekPosition ⟨bs, index⟩ = some (lineCol bs (min bs.length (index + 1))) ∧
+    (index = bs.length → SlicePos.peekPosition ⟨bs, index⟩ = SlicePos.position ⟨bs, index⟩ ∧
+      positionOfIndex bs (index + 1) = none) := by
+  refine ⟨SJ.Proofs.LineCol.positionOfIndex_eq bs index h,
+    SJ.Proofs.LineCol.positionOfIndex_eq bs _ (Nat.min_le_left _ _), fun he => ?_⟩
+  subst he
+  refine ⟨?_, SJ.Proofs.LineCol.positionOfIndex_panics bs _ (Nat.lt_succ_self _)⟩
+  simp [SlicePos.peekPosition, SlicePos.position]
+
+open SJ.Model.LineCol in
+/-- **The assumption about `memchr`, stated of the naive scans that stand in for it**: `memrchr(n, hay)` is the last
+    index holding `n` (none iff `n` does not occur), `memchr_iter(n, hay).count()` the number of occurrences. -/
+theorem c11_memchr_contract (n : UInt8) (hay : Bytes) :
+    (∀ p, memrchr n hay = some p ↔ (hay[p]? = some n ∧ ∀ j, p < j → hay[j]? ≠ some n)) ∧
+    (memrchr n hay = none ↔ ∀ x ∈ hay, x ≠ n) ∧
+    memchrCount n hay = (hay.filter (· == n)).length :=
+  ⟨SJ.Proofs.LineCol.memrchr_some_iff n hay, SJ.Proofs.LineCol.memrchr_none_iff n hay,
+   SJ.Proofs.LineCol.memchrCount_eq_filter n hay⟩
+
+/-! non-vacuity: `[\n1\r\n,é\nx` (bytes 5b 0a 31 0d 0a 2c c3 a9 0a 78) — a reader that has peeked the `x`, a reader that has
+    consumed the third newline, a slice at the same indices; `\r` and both bytes of `é` are columns -/
+section
+open SJ.Model.LineCol
+def lcDoc : Bytes := [0x5b, 0x0a, 0x31, 0x0d, 0x0a, 0x2c, 0xc3, 0xa9, 0x0a, 0x78]
+example : lineCol lcDoc 8 = (3, 3) ∧ lineCol lcDoc 9 = (4, 0) ∧ lineCol lcDoc 10 = (4, 1) := ⟨rfl, rfl, rfl⟩
+example : LCIter.new.feed (lcDoc.take 9) = { line := 4, col := 0, startOfLine := 9 } := by decide
+example : LCIter.new.feed (lcDoc.take 8) = { line := 3, col := 3, startOfLine := 5 } := by decide
+-- nine `next()`s, then `peek()`: `x` is in the peek slot, position 4:1 counts it, byte_offset 9 does not
+example : ((IoPos.new lcDoc).run (List.replicate 9 .next ++ [.peek])).position = (4, 1) ∧
+    ((IoPos.new lcDoc).run (List.replicate 9 .next ++ [.peek])).byteOffset = 9 ∧
+    ((IoPos.new lcDoc).run (List.replicate 9 .next ++ [.peek])).ch = some 0x78 := by decide
+-- … a newline in the peek slot: the reader is already on line 4 column 0, the slice's `position()` still says 3:3
+example : ((IoPos.new lcDoc).run (List.replicate 8 .next ++ [.peek])).position = (4, 0) ∧
+    SlicePos.position ⟨lcDoc, 8⟩ = some (3, 3) ∧ SlicePos.peekPosition ⟨lcDoc, 8⟩ = some (4, 0) := by decide
+example : positionOfIndex lcDoc 10 = some (4, 1) ∧ positionOfIndex lcDoc 11 = none ∧
+    SlicePos.peekPosition ⟨lcDoc, 10⟩ = some (4, 1) := by decide
+example : memrchr 0x0a (lcDoc.take 8) = some 4 ∧ memchrCount 0x0a (lcDoc.take 5) = 2 := by decide
+end
 
 end SJ.Props.C11
